@@ -47,6 +47,7 @@ var vC04Configs = []vC04Config{
 	{"shuffle/+unrelated-interleaved", "shuffle", true, ""},
 	{"sorted/trace-discard", "sorted", false, "discard"},
 	{"reversed/trace-stdout", "reversed", false, "stdout"},
+	{"assets.DefaultClassifier/second-instance", "default", false, ""},
 }
 
 // vUnrelatedDocs: documents over a vocabulary (yy[bdfgmp]{5,9}) that is disjoint
@@ -81,6 +82,26 @@ func vBuildConfig(t testing.TB, cfg vC04Config, thr float64, seed int64) *Classi
 	docs := append([]vDoc{}, vCorpus(t)...)
 	r := rand.New(rand.NewSource(seed*31 + 17))
 	c := NewClassifier(thr)
+	if cfg.order == "default" {
+		// the classifier the CLI uses: obtained AFTER another instance was created and
+		// extended (every instance must stand on its own)
+		if VDefaultClassifier == nil {
+			t.Fatalf("assets.DefaultClassifier hook not registered")
+		}
+		other, err := VDefaultClassifier()
+		if err != nil {
+			t.Fatalf("DefaultClassifier: %v", err)
+		}
+		for _, d := range docs[:40] {
+			other.AddContent("License", "Twin-"+strings.ReplaceAll(d.key, "/", "_"), "twin.txt", d.raw)
+		}
+		other.Normalize([]byte("zqsome zqnew zqwords brandnewdictionaryentry"))
+		dc, err := VDefaultClassifier()
+		if err != nil {
+			t.Fatalf("DefaultClassifier: %v", err)
+		}
+		return dc
+	}
 	if cfg.order == "walk" {
 		if err := c.LoadLicenses("assets"); err != nil {
 			t.Fatalf("LoadLicenses: %v", err)
